@@ -40,7 +40,7 @@ def handleEM (req : Json) : Except String Json := do
     | "mech" => match base with
       | none => pure (q.map (fun x => Gen.F.mech_em_score eps sens (Gen.F.mech_em_shift x qmax)))
       | some b => pure (List.zipWith (fun x bi => Gen.F.mech_em_score_base eps sens (Gen.F.mech_em_shift x qmax) (Float.log bi)) q b)
-    | "mst" => pure (q.map (fun x => Gen.F.mst_em_scores (Gen.F.mst_em_coef mono) eps sens x))
+    | "mst" => pure (q.map (fun x => Gen.F.mst_em_scores (Gen.F.mst_em_coef mono) eps sens x qmax))
     | "ada" => pure (q.map (fun x => Gen.F.ada_em_scores (Gen.F.ada_em_coef mono) eps sens x qmax))
     | "mwem" => pure (q.map (fun x => Gen.F.mwem_sel_score eps (Gen.F.mwem_sel_sensitivity bounded) x qmax))
     | _ => throw s!"unknown primitive {prim}"
